@@ -1,9 +1,9 @@
 SPECIFICATION FairSpec
 CONSTANTS
   NChunks = 2
-  CS = 2
-  NGets = 3
-  Ranges <- WholeChunkRanges
+  CS = 1
+  NGets = 2
+  Ranges <- AllRanges
   Plays <- NoPlay
   Forces <- NoForce
   MaxInv = 1
